@@ -27,6 +27,9 @@ RULE = (
     "leaf may start at most as many iterations as it has occurrences upstream of the core and the materialize hook may "
     "run at most once per core; every later evaluation of a core must return the cached rows.  Non-trivial = the core "
     "was evaluated and then re-used >= 2 times; distinct = multiset of step kinds x core kind."
+    "  Some cores are calc -> transfer -> 0-2 user-defined markers -> materialization or end in a chain with a "
+    "doomed branch; payload objects with value equality are attached; the rows cached on each core are "
+    "snapshotted when first seen and re-compared (same rows, same order) after every step. "
 )
 ASSUMPTIONS = [
     "iteration-core leaves are observed through CountingRows payloads; SQL cores through the Processor hook log",
